@@ -22,7 +22,7 @@ import itertools
 
 import numpy as np
 
-from tvmon import gen, ref
+from tvmon import gen, ref, sanit
 from tvmon.ref import LD, EPS
 
 PID = 'C14'
@@ -31,7 +31,8 @@ RULE = ('dist cases: random TT-tensors with N <= 300 entries (d=2..5, mode '
     'sizes 1..4, ranks 1..4; families generic/rank1/overrank/deficient/mode1/'
     'int/d2/decay/scaled plus zero slices, peaked, and a non-negative tensor '
     'with mixed-sign cores); every multi-index is audited through the '
-    'scripted generator (m = N) and again for a random m in 1..N; '
+    'scripted generator (m = N) and again for a random m in 1..N (thorough: '
+    'a third of the tensors with N <= 600, ranks <= 5); '
     'non-trivial = distinct (shape, ranks, family, flags) with max rank >= 2, '
     'N >= 4 and max/min positive probability >= 2.  struct cases: random '
     'shapes (d=2..6, n=1..12), m=1..300 (int and float), r=1..6, int seeds '
@@ -41,11 +42,12 @@ REQUIRED = {
     'sample-fallback': 4, 'square-fallback': 4,
     'sample-pvec': 40, 'square-pvec': 40,
     'sample-struct': 40, 'square-struct': 40, 'square-unique': 40,
-    'sample-support': 40, 'square-support': 40,
+    'sample-support': 40, 'square-support': 40, 'sample-unsert-null': 10,
     'lhs-struct': 40, 'lhs-balance': 40, 'rand-struct': 40,
     'rand-poi-struct': 40, 'tt-idx': 40, 'tt-layout': 40,
 }
-REQUIRED_EVENTS = {'audit-multi-indices': 2000, 'square-unique-restart': 1}
+REQUIRED_EVENTS = {'audit-multi-indices': 2000, 'square-unique-restart': 1,
+    'unsert-null-rows-drawn': 1}
 ASSUMPTIONS = [
     'numpy longdouble dense contraction is the reference distribution',
     'sample: componentwise running-error model, tol_j = 2*g*amp*(sum_k '
@@ -80,15 +82,18 @@ FAMS = ['generic', 'generic', 'rank1', 'overrank', 'deficient', 'mode1',
 
 def gen_cases(seed, tier):
     quick = tier == 'quick'
-    nd, ns = (320, 320) if quick else (8000, 8000)
-    every = 8 if quick else 16      # always-on fallback subset
+    nd, ns = (640, 640) if quick else (20000, 20000)
+    every = 10 if quick else 16     # always-on fallback subset
     rng = np.random.default_rng([seed, 1414])
     out = []
     for j in range(nd):
-        out.append({'kind': 'dist', 'seed': int(rng.integers(1 << 62)),
+        case = {'kind': 'dist', 'seed': int(rng.integers(1 << 62)),
             'family': FAMS[j % len(FAMS)],
             # rotates through the families from block to block
-            'fallback': bool((j // len(FAMS) + j) % every == 0)})
+            'fallback': bool((j // len(FAMS) + j) % every == 0)}
+        if not quick and j % 3 == 0:
+            case.update({'maxN': 600, 'rmax': 5})
+        out.append(case)
     for j in range(ns):
         out.append({'kind': 'struct', 'seed': int(rng.integers(1 << 62)),
             'big': bool(j % 4 == 0)})
@@ -311,18 +316,20 @@ class RefSquare:
 def path_products(f, tol):
     """Product of the recorded conditionals along each path.
 
-    Once the running product is <= the tolerance of the entry the path is
-    numerically a null event: later conditionals are conditioned on it and are
-    undefined (0/0 in the sampler), the running product is an upper bound of
-    the path probability.  A non-finite factor on a live path stays NaN.
+    A non-finite factor (0/0 inside the sampler) is tolerated only when the
+    running product is already <= the tolerance of the entry: the path is then
+    numerically a null event, later conditionals are conditioned on it and are
+    undefined, and the running product is an upper bound of the path
+    probability.  A non-finite factor on a live path leaves NaN (= violation).
     """
     M, d = f.shape
     cum = np.ones(M, dtype=LD)
     alive = np.ones(M, dtype=bool)
     tol = np.asarray(tol, dtype=LD)
     for k in range(d):
-        alive &= cum > tol
-        cum = np.where(alive, cum * f[:, k].astype(LD), cum)
+        fk = f[:, k].astype(LD)
+        alive &= ~(~np.isfinite(fk) & (cum <= tol))
+        cum = np.where(alive, cum * fk, cum)
     return cum
 
 
@@ -373,14 +380,24 @@ def audit(ctx, name, sampler, Yt, R, paths, u, inner_seed, kw, note):
         f'from the tensor distribution ({note})',
         n=n, ranks=ref.ranks_of(Yt), unsert=float(u))
     # every probability vector offered on a path that is actually taken must
-    # be a distribution (a real generator raises on NaN / negative / sum != 1)
+    # be a distribution (a real generator raises on NaN / negative / sum != 1).
+    # Below a null first-mode slice (reachable through unsert > 0) any
+    # distribution is acceptable; the probability of such a prefix is taken
+    # from the recorded chain itself.
     badvec = None
     nullvec = None
+    nullreach = 0.
     seen = set()
     for s in range(len(paths)):
         for k in range(d):
             v = int(vid[s, k])
-            reach = LD(1) if k == 0 else pref[s, k - 1]
+            if k == 0:
+                reach = LD(1)
+            elif judged[s]:
+                reach = pref[s, k - 1]
+            else:
+                reach = pref[s, 0] * np.prod(f[s, 1:k].astype(LD))
+                nullreach = max(nullreach, float(np.nan_to_num(reach)))
             if v in seen or not reach >= REACH:
                 continue
             seen.add(v)
@@ -399,18 +416,16 @@ def audit(ctx, name, sampler, Yt, R, paths, u, inner_seed, kw, note):
     ctx.check(f'{name}-pvec', badvec is None,
         f'{name}: an invalid probability vector is offered to the generator '
         f'on a path of probability >= {REACH} ({note})', witness=badvec)
-    if name == 'sample' and u > 0 and np.any(~judged):
-        # default `unsert` makes a null first-mode slice reachable; the next
-        # conditional is 0/0.  Separate monitor: genuine robustness defect,
-        # outside the distribution claim (reported with its own key).
-        reach = float(np.max(pref[~judged, 0]))
-        if reach >= REACH:
-            ctx.check('sample-unsert-null', nullvec is None,
-                'sample(unsert>0) enters an all-zero first-mode slice with '
-                f'probability {reach:.3g} per draw and then offers a NaN '
-                'probability vector (ValueError in a real generator)',
-                kf='unsert-null-slice', witness=nullvec, n=n,
-                total=float(R.total), unsert=float(u))
+    if name == 'sample' and u > 0 and np.any(~judged) and nullreach >= REACH:
+        # unsert > 0 makes an all-zero first-mode slice reachable; the vectors
+        # offered below it must still be distributions (else a real generator
+        # raises "Probabilities contain NaN" and no array is returned).
+        ctx.check('sample-unsert-null', nullvec is None,
+            'sample(unsert>0) enters an all-zero first-mode slice with '
+            f'probability {float(np.max(pref[~judged, 0])):.3g} per draw and '
+            'then offers an invalid (NaN) probability vector: ValueError in a '
+            'real generator', witness=nullvec, n=n, total=float(R.total),
+            unsert=float(u))
     return 'ok' if ok and badvec is None else 'violated'
 
 
@@ -444,6 +459,10 @@ def fallback(ctx, mon, I, n, idx, P, tol, note):
         if worst is None or pv[j] < worst[0]:
             worst = (float(pv[j]), what, j, int(c[j]), float(p[j]) * m)
     ctx.event('binomial-tests', ntests)
+    # evidence: distance of the smallest tail from the rejection level
+    with np.errstate(all='ignore'):
+        ratio = float(np.log10(max(worst[0], 1e-300)) / np.log10(ALPHA))
+    ctx.margins[mon] = max(ctx.margins.get(mon, 0.), ratio)
     return ctx.check(mon, worst[0] >= ALPHA,
         f'{note}: {m} real draws are incompatible with the tensor '
         f'distribution (exact binomial tail {worst[0]:.3g} < {ALPHA}): '
@@ -482,15 +501,15 @@ def zero_slices(rng, Y, first=None):
     return done
 
 
-def build(rng, family):
+def build(rng, family, max_entries=300, rmax=4):
     """(Y0 arbitrary sign, Ypos non-negative tensor, info)."""
     base = {'zero': 'generic', 'peaked': 'generic', 'kron2': 'generic',
         'unsert-null': 'generic', 'zero-scaled': 'generic'}.get(family, family)
-    rmax = 3 if family == 'kron2' else 4
+    rmax = 3 if family == 'kron2' else rmax
     nmin = 1
     for _ in range(50):
         Y0, info = gen.make_tt(rng, base, dmin=2, dmax=5, nmin=nmin, nmax=4,
-            rmax=rmax, max_entries=300)
+            rmax=rmax, max_entries=max_entries)
         if family in ('unsert-null', 'zero-scaled') and info['n'][0] < 2:
             continue
         if family == 'kron2' and max(info['r']) > 3:
@@ -521,7 +540,8 @@ def build(rng, family):
 
 def run_dist(case, ctx, teneva):
     rng = np.random.default_rng(case['seed'])
-    Y0, Ypos, info = build(rng, case['family'])
+    Y0, Ypos, info = build(rng, case['family'], case.get('maxN', 300),
+        case.get('rmax', 4))
     n = info['n']
     d = len(n)
     N = int(np.prod(n))
@@ -557,6 +577,22 @@ def run_dist(case, ctx, teneva):
         paths2 = idx[rng.integers(0, N, size=m2)]
         status.append(audit(ctx, 'sample', teneva.sample, Ypos, RS, paths2, 0.,
             s_int, {'unsert': 0.}, f'm = {m2} random paths, unsert=0'))
+        if np.any(RS.null_first):
+            # real draws with the default unsert that do enter the null slice
+            # (probability 1 - exp(-30)): an index array must come back
+            q = float(np.sum(RS.null_first) * default_u
+                / (RS.total + n[0] * default_u))
+            if q >= 2e-3:
+                m = int(min(NDRAW, np.ceil(30 / q)))
+                I = call(ctx, 'sample-unsert-null', teneva.sample, Ypos, m,
+                    seed=seed_obj(30))
+                if I is not None:
+                    why = index_array_ok(I, m, n)
+                    ctx.check('sample-unsert-null', why is None,
+                        f'sample(m={m}, default unsert): {why}', n=n)
+                    if why is None:
+                        ctx.event('unsert-null-rows-drawn',
+                            int(np.sum(RS.null_first[I[:, 0]])))
         incon = [s for s in status if s not in ('ok', 'violated')]
         run_fb = case['fallback'] or bool(incon)
         if incon:
@@ -674,9 +710,13 @@ def run_dist(case, ctx, teneva):
         ms = sorted({1, easy, int(rng.integers(1, easy + 1))}) if easy else []
         for j, m in enumerate(ms):
             kw = {'unique': True} if j % 2 == 0 else {}
+            g0 = sanit.global_rng_bytes()
             with CountRestarts(ctx):
                 I = call(ctx, 'square-unique', teneva.sample_square, Y0, m,
                     seed=seed_obj(20 + j), **kw)
+            if sanit.global_rng_bytes() != g0:
+                # telemetry only (hidden state is the subject of C10)
+                ctx.event('square-unique-touched-global-rng')
             if I is None:
                 continue
             why = index_array_ok(I, m, n)
@@ -840,9 +880,12 @@ def run_struct(case, ctx, teneva):
             check_tt(ctx, out, nt, r)
     if any(m % k for k in n):
         ctx.nontrivial(['struct', n, m])
-    ctx.sample({'case': case, 'n': n, 'm': m,
-        'lhs_counts_mode0': np.bincount(teneva.sample_lhs(n, m, seed=s_int)[:, 0],
-        minlength=n[0]).tolist(), 'allowed': [m // n[0], -(-m // n[0])]})
+    if case['seed'] % 16 == 0:
+        c0 = np.bincount(teneva.sample_lhs(n, m, seed=s_int)[:, 0],
+            minlength=n[0])
+        ctx.sample({'case': case, 'n': n, 'm': m,
+            'lhs_counts_mode0': c0.tolist(),
+            'allowed': [m // n[0], -(-m // n[0])]})
 
 
 def check_tt(ctx, out, n, r):
